@@ -71,7 +71,13 @@ for (const op of ops) {
     if (op.op === 'tsroutes' || op.op === 'tsserve') {
       const mk = m['create' + op.service + 'Routes'];
       if (typeof mk !== 'function') { out({ ...base, event: 'DriverError', seq: seq.n++, detail: 'no create' + op.service + 'Routes' }); continue; }
-      const routes = mk(handlerProxy(op, seq), op.serverOptions || undefined);
+      let routes = mk(handlerProxy(op, seq), op.serverOptions || undefined);
+      // the other services of the module share the route table (a wrong route must not find another handler unnoticed)
+      for (const other of op.services || []) {
+        if (other !== op.service && typeof m['create' + other + 'Routes'] === 'function') {
+          routes = routes.concat(m['create' + other + 'Routes'](handlerProxy(op, seq), op.serverOptions || undefined));
+        }
+      }
       if (op.op === 'tsroutes') {
         out({ ...base, event: 'TsRoutes', seq: seq.n++, service: op.service, routes: routes.map((r) => ({ method: r.method, path: r.path })) });
         continue;
@@ -96,7 +102,7 @@ for (const op of ops) {
             headers, route: { method: route.method, path: route.path } });
       continue;
     }
-    if (op.op === 'tscall') {
+    if (op.op === 'tscall' || op.op === 'tspair') {
       const Cls = m[op.service + 'Client'];
       if (typeof Cls !== 'function') { out({ ...base, event: 'DriverError', seq: seq.n++, detail: 'no class ' + op.service + 'Client' }); continue; }
       const fetchFn = async (url, init) => {
@@ -108,6 +114,27 @@ for (const op of ops) {
         const u = new URL(url);
         out({ ...base, event: 'Sent', seq: seq.n++, verb: (init && init.method) || 'GET', path: u.pathname, rawQuery: u.search.replace(/^\?/, ''),
               rawUrl: String(url), headers: hs, bodyB64: body ? b64(body) : '', hasBody: body != null });
+        if (op.op === 'tspair') {
+          // TS client -> TS server in-process: the Request the client built goes through the emitted routes
+          const sl = await load(op.serverModule);
+          if (sl.err) { out({ ...base, event: 'TsLoadError', seq: seq.n++, module: op.serverModule, detail: sl.err }); throw new Error('server module does not load'); }
+          let routes = [];
+          for (const svc of op.services || [op.service]) {
+            const mk = sl.mod['create' + svc + 'Routes'];
+            if (typeof mk === 'function') routes = routes.concat(mk(handlerProxy(op, seq), op.serverOptions || undefined));
+          }
+          const verb = (init && init.method) || 'GET';
+          const route = matchRoute(routes, verb, u.pathname);
+          if (!route) { out({ ...base, event: 'TsNoRoute', seq: seq.n++, verb, path: u.pathname }); return new Response('no route', { status: 404 }); }
+          const rinit = { method: verb, headers: h };
+          if (body != null && verb !== 'GET' && verb !== 'HEAD') rinit.body = body;
+          const resp = await route.handler(new Request(String(url), rinit));
+          const copy = resp.clone();
+          const rb = new Uint8Array(await copy.arrayBuffer());
+          out({ ...base, event: 'Resp', seq: seq.n++, status: resp.status, ctype: resp.headers.get('content-type') || '', bodyB64: b64(rb),
+                route: { method: route.method, path: route.path } });
+          return resp;
+        }
         const c = op.canned || { status: 200, headers: [['Content-Type', 'application/json']], bodyB64: b64(Buffer.from('{}')) };
         const rh = new Headers();
         for (const [k, v] of c.headers || []) rh.append(k, v);
